@@ -1,0 +1,11 @@
+// Copyright 2025 The JSON Schema Go Project Authors. All rights reserved.
+// Use of this source code is governed by an MIT-style
+// license that can be found in the LICENSE file.
+
+//go:build !verif
+
+package jsonschema
+
+// verifPoint is an observation point for external runtime monitors.
+// Without the "verif" build tag it does nothing.
+func verifPoint(string) {}
